@@ -54,6 +54,21 @@ fn id(rng: &mut Prng) -> [u8; 20] {
 }
 
 fn sdp(rng: &mut Prng) -> String {
+    if rng.chance(1, 4) {
+        // texts of boundary lengths (bytes), with the odd escape-worthy or multi-byte character
+        let len = *rng.pick(&[19usize, 20, 21, 63, 64, 65, 255, 256, 257, 1000, 4000]);
+        let mut m = String::new();
+        while m.len() < len {
+            match rng.below(24) {
+                0 => m.push('"'),
+                1 => m.push('\\'),
+                2 => m.push('\n'),
+                3 if m.len() + 2 <= len => m.push('\u{e9}'),
+                _ => m.push((b'a' + rng.below(26) as u8) as char),
+            }
+        }
+        return m;
+    }
     rng.pick(&["", "v=0\r\no=- 1 2 IN IP4 127.0.0.1", "q\"uote\\back/slash", "\u{0}\u{1}\u{1f}\u{7f}", "\u{1F600} non-BMP \u{10FFFF}", "h\u{e9}llo \u{2028}\u{2029}"])
         .to_string()
 }
